@@ -316,6 +316,53 @@ pub fn run(ctx: &mut Ctx) {
         },
         t.pick(40_000, 400_000),
     );
+    // fundamental groups of spherical 2D symbols: order 4/K (curvature from the harness's own formula),
+    // presented by the textbook presentation (many generators and relators)
+    ctx.layer("spherical-2d-groups");
+    {
+        use crate::gen::dsets::dsets_of_size;
+        use crate::gen::dsyms::{assign, orbit_reps};
+        use crate::oracle::fg::own_fundamental_group;
+        use crate::oracle::orb2;
+        use num_traits::Signed;
+        let mut sph: Vec<CosetCase> = vec![];
+        for n in 1..=t.pick(6usize, 8usize) {
+            for ds in dsets_of_size(2, n) {
+                let reps = orbit_reps(&ds);
+                // all assignments with v <= 5 (the groups are finite only for positive curvature)
+                let total = 5u64.pow(reps.len() as u32).min(4096);
+                for idx in 0..total {
+                    let mut k = idx;
+                    let vs: Vec<usize> = reps.iter().map(|_| { let v = (k % 5) as usize + 1; k /= 5; v }).collect();
+                    let x = assign(&ds, &reps, &vs);
+                    let kx = orb2::curvature(&x);
+                    if !kx.is_positive() {
+                        continue;
+                    }
+                    if orb2::invariants(&x).map_or(true, |o| o.is_bad()) {
+                        continue;
+                    }
+                    let order = num_rational::Rational64::from(4) / kx;
+                    if !order.is_integer() || order.to_integer() > 240 {
+                        continue;
+                    }
+                    let fg = own_fundamental_group(&x);
+                    if fg.pres.nr_gens == 0 || fg.pres.rels.is_empty() {
+                        continue;
+                    }
+                    let g = fg.pres.nr_gens as i64;
+                    let name = format!("fundamental group of the spherical 2D symbol {} (order 4/K = {})", x.text(), order.to_integer());
+                    let mk = |sub: Vec<Word>, variant: u8| CosetCase { name: name.clone(), nr_gens: fg.pres.nr_gens, rels: fg.pres.rels.clone(), order: order.to_integer() as u64, index: 0, sub, variant };
+                    sph.push(mk(vec![], 0));
+                    sph.push(mk(vec![vec![1]], 1));
+                    sph.push(mk(vec![vec![g, 1]], 2));
+                    sph.push(mk(vec![vec![1, -g], vec![(g + 1) / 2]], (idx % 3) as u8));
+                }
+            }
+        }
+        let n = sph.len();
+        ctx.run_par(&SUB_COSET, sph, Some(&format!("{} (group, subgroup) pairs: textbook presentations of the orbifold groups of all good spherical 2D symbols (branching <= 5, <= {} chambers, order 4/K <= 240) x 4 subgroups", n, t.pick(6, 8))));
+    }
     // random presentations, random subgroup words (no literature value: reference enumeration + maximality argument)
     ctx.layer("random-presentations");
     ctx.run_prop(
